@@ -229,6 +229,14 @@ def special_form(I, n):
         return True
     if name == 'use':
         call = n.args[0]
+        for kw in n.keywords:
+            if kw.arg == 'when':
+                c = I.bool_term(I.eval(kw.value))
+                c = z3.BoolVal(c) if isinstance(c, bool) else c
+                if I.entails(z3.Not(c)):
+                    return True
+                if not I.entails(c):
+                    raise OutOfReach('use(..., when=c): c is not decided on this path; add a cases() split')
         f = I.eval(call.func)
         lm = getattr(f, '__pyvc_lemma__', None)
         if lm is None:
